@@ -258,3 +258,16 @@ impl<I: Interner> CoherenceSolver<'_, I> {
         result
     }
 }
+
+/// Verification hook (off unless built with `--cfg chalk_verif`): exposes the two
+/// queries the pairwise loop of `visit_specializations_of_trait` is built from.
+#[cfg(chalk_verif)]
+impl<I: Interner> CoherenceSolver<'_, I> {
+    pub fn verif_disjoint(&self, l_id: ImplId<I>, r_id: ImplId<I>) -> bool {
+        self.disjoint(&self.db.impl_datum(l_id), &self.db.impl_datum(r_id))
+    }
+
+    pub fn verif_specializes(&self, less_special_id: ImplId<I>, more_special_id: ImplId<I>) -> bool {
+        self.specializes(less_special_id, more_special_id)
+    }
+}
